@@ -126,6 +126,13 @@ def r1_guard(chk):
             chk.ob('C09.R1', 'compile/guard(failed=%d,ignoreErrors=%d)->%s' % (a, b, 'write' if want else 'no-write'),
                    writes == want, where(r.mod, guards[0].ast),
                    'under failed=%s ignoreErrors=%s the writer is %sreachable' % (a, b, '' if writes else 'un'))
+            marks = [n for n in reach if n.kind == 'stmt' and cr.subscript_store(n.ast) and
+                     cr.subscript_store(n.ast)[0] == r.result and
+                     cr.status_of(cr.subscript_store(n.ast)[2], r.status_consts) == 'unprocessed']
+            if not (a and not b):
+                chk.ob('C09.R1', 'compile/guard(failed=%d,ignoreErrors=%d)->no-unprocessed-marking' % (a, b), not marks,
+                       where(r.mod, marks[0].ast) if marks else where(r.mod, guards[0].ast),
+                       'built modules are marked unprocessed although they are going to be written')
             if a and not b:
                 # the region must end in `return RESULT` only
                 region = reach
@@ -286,4 +293,20 @@ def r4_write_loop_covers_all(chk):
                 chk.ob('C09.R4', 'compile/writeMibs-default-on', ok, where(r.mod, c), 'writeMibs must default to on')
 
 
-RULES = [r1_guard, r2_unprocessed_marking, r3_failed_only_forgotten_on_success, r4_write_loop_covers_all]
+def r5_failures_feed_the_guard(chk):
+    """every way a module can fail must put it into the FAILED map the guard tests: the source-error handlers of the
+    discovery loop (same rule as C07.R1) and the FAILED/RESULT pairing (C07.R5)"""
+    from vt.runner import Check
+    from rules import C07
+    chk.doc('C09.R5', 'each handler of the source try other than not-found records the failure in FAILED; FAILED and '
+                      'RESULT move together')
+    tmp = Check(chk.prop, chk.tier, chk.model, chk.repo)
+    C07.r1_containment(tmp)
+    C07.r5_failed_result_pairing(tmp, rule='C09.R5')
+    for o in tmp.obligations:
+        if 'source-handler' in o.key or o.rule == 'C09.R5':
+            chk.ob('C09.R5', o.key, o.ok, o.where, o.detail)
+
+
+RULES = [r1_guard, r2_unprocessed_marking, r3_failed_only_forgotten_on_success, r4_write_loop_covers_all,
+         r5_failures_feed_the_guard]
